@@ -558,8 +558,9 @@ class Inliner:
             val = ast.copy_location(ast.ListComp(elt=ast.Name(id=x_, ctx=ast.Load()), generators=[ast.comprehension(
                 target=ast.Name(id=x_, ctx=ast.Store()), iter=val.args[0], ifs=[], is_async=0)]), val)
             ast.fix_missing_locations(val)
-        if not (isinstance(val, ast.ListComp) and len(val.generators) == 1 and not val.generators[0].is_async):
+        if not (isinstance(val, (ast.ListComp, ast.DictComp)) and len(val.generators) == 1 and not val.generators[0].is_async):
             return None
+        is_dict = isinstance(val, ast.DictComp)
         g = val.generators[0]
         over_gen = isinstance(g.iter, ast.Call) and self._callee(fi, g.iter, generator=True) is not None
 
@@ -570,7 +571,8 @@ class Inliner:
                     if h is not None and _expr_form(h) is None and _stmt_form(h) is not None and _bind(h, c, self._receiver(c)) is not None:
                         return True
             return False
-        if not over_gen and not needs_statements(val.elt) and not any(needs_statements(c) for c in g.ifs):
+        parts = [val.key, val.value] if is_dict else [val.elt]
+        if not over_gen and not any(needs_statements(p_) for p_ in parts) and not any(needs_statements(c) for c in g.ifs):
             return None
         if any(isinstance(x, ast.Name) and x.id == tgt_id for x in ast.walk(val)):
             return None
@@ -588,11 +590,16 @@ class Inliner:
             for x in ast.walk(val):
                 if isinstance(x, ast.Name) and x.id in bound:
                     x.id = f"{x.id}__c{self.counter}"
-        app: ast.stmt = ast.Expr(value=ast.Call(func=ast.Attribute(value=ast.Name(id=tgt_id, ctx=ast.Load()), attr="append", ctx=ast.Load()),
-                                               args=[val.elt], keywords=[]))
+        if is_dict:
+            app: ast.stmt = ast.Assign(targets=[ast.Subscript(value=ast.Name(id=tgt_id, ctx=ast.Load()), slice=val.key, ctx=ast.Store())],
+                                       value=val.value, lineno=st.lineno)
+        else:
+            app = ast.Expr(value=ast.Call(func=ast.Attribute(value=ast.Name(id=tgt_id, ctx=ast.Load()), attr="append", ctx=ast.Load()),
+                                          args=[val.elt], keywords=[]))
         for c in reversed(g.ifs):
             app = ast.If(test=c, body=[app], orelse=[])
-        init = ast.Assign(targets=[ast.Name(id=tgt_id, ctx=ast.Store())], value=ast.List(elts=[], ctx=ast.Load()), lineno=st.lineno)
+        init = ast.Assign(targets=[ast.Name(id=tgt_id, ctx=ast.Store())],
+                          value=ast.Dict(keys=[], values=[]) if is_dict else ast.List(elts=[], ctx=ast.Load()), lineno=st.lineno)
         loop = ast.For(target=g.target, iter=g.iter, body=[app], orelse=[], lineno=st.lineno)
         out = [init, loop] + ([ast.Return(value=ast.Name(id=tgt_id, ctx=ast.Load()))] if ret else [])
         for s_ in out:
